@@ -71,8 +71,31 @@ func authFilter(init []string, ops []string) func(hist []string) []string {
 	}
 }
 
+// edgeIDs renames the device ids of an alphabet: device "1" becomes short id 0 (the zero value of every
+// id-typed variable, cache and map miss), device "3" the largest id, device "2" stays an ordinary one.
+func edgeIDs(ops []string) []string {
+	out := make([]string, len(ops))
+	for i, op := range ops {
+		p := strings.Split(op, ":")
+		if p[0] == "auth" || p[0] == "rep" {
+			switch p[1] {
+			case "1":
+				p[1] = "0"
+			case "3":
+				p[1] = "4294967295"
+			}
+		}
+		out[i] = strings.Join(p, ":")
+	}
+	return out
+}
+
 func runOpsCheck(prop, tier string, arg opsArg, ops []string, depth int, rule string, extra ...func(run *ev.Run, p *pool.Pool) (evals int)) int {
 	run := newRun(prop, tier, "model_checking")
+	if prop != "C07" && prop != "C18" {
+		arg.Init, ops = edgeIDs(arg.Init), edgeIDs(ops)
+		run.Coverage["device_ids"] = "0 (zero value), 2, 4294967295"
+	}
 	p := pool.New(0)
 	st := bfsPool(run, p, "ops", arg, depth, 0, authFilter(arg.Init, ops))
 	for _, f := range extra {
@@ -90,7 +113,8 @@ func runOpsCheck(prop, tier string, arg opsArg, ops []string, depth int, rule st
 
 func init() {
 	checks["C06"] = func(tier string) int {
-		arg := opsArg{Name: "c06", Init: []string{"reg:G1:temp", "now:100"}, RestartCheck: true}
+		// the clock stands in the second week of the live window: device 1 reports there (index 2100), device 2 in the first week (index 100)
+		arg := opsArg{Name: "c06", Init: []string{"reg:G1:temp", "now:2100"}, RestartCheck: true}
 		ops := []string{
 			"auth:1:kA:1000:G1",       // a1
 			"auth:1:kA:2000:G1",       // a1': capacity differs
@@ -102,7 +126,7 @@ func init() {
 			"auth:1:kA:1000:G1:stale", // content altered after signing: carries the valid signature of a1
 			"auth:1:kA:1000:temp", "auth:1:kA:1000:srv", "auth:1:kA:1000:G2",
 			"auth:1:kA:2000:G2", // a conflict that is not signed by the GCA must not ban
-			"rep:1:kA:now:500", "rep:2:kB:now:500", "rep:1:kB:now:500", "rep:1:kF:now:500",
+			"rep:1:kA:now:500", "rep:2:kB:now-2000:500", "rep:1:kB:now:500", "rep:1:kF:now-2000:500",
 			"rot", "restart",
 		}
 		depth := 4
